@@ -6,7 +6,7 @@ CONSTANTS
   MaxReq = 1
   DesigSets <- DesigAll3
   FeeSet <- FeesOne
-  MaxNet = 4
+  MaxNet = 3
   AllowFast = FALSE
   AllowForge = TRUE
   AllowRestart = FALSE
